@@ -37,6 +37,13 @@ def _run(ev, work, thorough, pid):
     ev.add_tlc("ColumnWriter: layout/bookkeeping/statistics invariants over the whole input lattice", res)
     cases, res = CW.export_cases(work, consts, "exp")
     ev.add_tlc("ColumnWriterMC export: expected layout, statistics and cell table per case", res, cases=len(cases))
+    big, resb = CW.export_cases(work, CW.BIG, "big")
+    ev.add_tlc("ColumnWriterMC export: row counts 63/64/65/100 (framing of the level block changes at 64)", resb, cases=len(big))
+    cases = cases + big
+    if thorough:
+        huge, resh = CW.export_cases(work, CW.HUGE, "huge")
+        ev.add_tlc("ColumnWriterMC export: row counts 8191/8192/8193", resh, cases=len(huge))
+        cases = cases + huge
     jobs, results = CW.run_cases(cases, work)
     verd = Verdicts(pid, os.path.join(HOME, "replays"))
     raised = rej_ok = 0
